@@ -3,6 +3,7 @@
 import os, sys, json
 from fractions import Fraction as F
 import gen_cases as G
+import props_c18
 
 VERIF = os.path.dirname(os.path.dirname(os.path.abspath(__file__)))
 
@@ -1434,6 +1435,7 @@ PROPS = {
             "rule": "for random models and 4 routines each (22 public routines): a pristine model called with state B versus the same model after 1-3 earlier calls with state A and external forces A, then a deterministic poisoning of every free workspace entry, then the call with state B; flag-cleared variants after the documented predecessor; constraint-set routines after earlier calls on the same set; distinct = distinct (model shape, routine, history)",
             "explanation": "direct statement on the implementation (twin comparison pristine vs polluted, relative 1e-9) plus correspondence of every polluted run with the workspace-passing Lean model given the identical poison",
             "assumptions": COMMON_ASSUMPTIONS},
+    "C18": props_c18.ENTRY,
     "C07": {"gen": gen_C07,
             "rule": "twin models: Euler ZYX/XYZ/YXZ/ZXY and XYZ translation as built-in joint vs emulated 3-DoF joint vs chain of 1-DoF joints through massless bodies; floating base vs translation + spherical; RevoluteX as built-in / custom / axis / revolute; custom EulerZYX vs built-in; fixed body vs inertia merged beforehand (merged parameters from the exact model); sibling branches added in swapped order (coordinate permutation); each below a random prefix, with a child joint and a fixed body attached; compared on InverseDynamics, ForwardDynamics, CRBA, NonlinearEffects, CoM, energies, point position / velocity / acceleration, Jacobians, M^-1 tau",
             "explanation": "direct statement on the implementation (twin comparison) plus correspondence of every variant with the Lean model and its spec monitors",
